@@ -520,4 +520,12 @@ def rule_admission_shared(ctx):
     ctx.obls.extend(sub.obls)
 
 
-RULES = [rule_translation, rule_routing, rule_assembled, rule_fresh_rename, rule_definitions_survive_simplification, rule_break_preserves_meaning, rule_admission_shared]
+def rule_placeholders_reach_every_term(ctx):
+    """FLOW-SAN shows that every formula source passes replace_placeholders; this shows that replace_placeholders itself reaches every term of a
+    formula (an assumption `n > 0` must speak about the integer placeholder n, not about a symbolic constant)"""
+    from .. import collect
+    collect.check_replace_placeholders(ctx, "FLOW-SAN", ctx.facts)
+
+
+RULES = [rule_translation, rule_routing, rule_assembled, rule_fresh_rename, rule_definitions_survive_simplification, rule_break_preserves_meaning, rule_admission_shared,
+         rule_placeholders_reach_every_term]
